@@ -426,9 +426,15 @@ def judge(rr, ctx):
                                               f.get("second_loss_after_open_us") is not None) else "")
                      for f in faults})
 
+    phase = {"post": False}
+
     def V(clause, detail, site=None):
-        if clause in ("answer-lost", "answer-of-other-command", "wrong-answer",
-                      "framing-error-not-reported"):
+        if phase["post"] and clause in ("answer-lost", "answer-of-other-command", "wrong-answer",
+                                        "framing-error-not-reported"):
+            # long after the faults have stopped: recovery is not clean
+            clause, site = "post-recovery-answers-misattributed", "after-" + ("+".join(fkinds) or "no-fault")
+        elif clause in ("answer-lost", "answer-of-other-command", "wrong-answer",
+                        "framing-error-not-reported"):
             # one defect family per fault history: after this fault the
             # answers reach the wrong command (shifted / lost / swapped)
             clause, site = "answers-misattributed", "after-" + ("+".join(fkinds) or "no-fault")
@@ -464,6 +470,10 @@ def judge(rr, ctx):
             exc_on = True
         if rec.status in ("pending", "running"):
             continue
+        if rec.status == "livelock":
+            V("send-spins-without-yielding", "unit %s: the driver loops around a failing I/O call without ever "
+              "returning to the event loop" % u, site="exceptions-%s" % ("on" if exc_on else "off"))
+            continue
         if rec.status == "cancelled" or (rec.status in ("timeout", "raised") and rec.cancel_requested):
             continue
         if rec.status in ("raised", "timeout"):
@@ -488,6 +498,8 @@ def judge(rr, ctx):
             results = [rec.result]
         else:
             results = list(rec.responses)
+        if hid:
+            _check_last_attempt_prefix(V, rr, u, specs)
         for spec, result in zip(specs, results):
             cmd = cmds.mk_cmd(spec)
             o = rec.op.get("outs", {}).get("%d:%d" % (spec[0], spec[1]))
@@ -512,6 +524,7 @@ def judge(rr, ctx):
     if serial and fin.get("proto_tx_lock"):
         V("tx-lock-held-at-end", "protocol tx lock locked at quiescence")
     # ---- recovery ---------------------------------------------------------
+    phase["post"] = True
     for item in getattr(rr, "post", []):
         if item[0] == "no-recovery":
             V("no-recovery", "device back and connect() called, but the driver never became connected",
@@ -536,6 +549,33 @@ def judge(rr, ctx):
             V("exception-escaped-callback", "%s: %r" % (cx.get("message"), e),
               site=type(e).__name__ if e else None)
     return out
+
+
+def _check_last_attempt_prefix(V, rr, u, specs):
+    """A command that needs a device type must be immediately preceded by its
+    EnableDeviceType frame on the wire - also in the attempt that finally
+    succeeded after a reconnection (same device generation)."""
+    sends = rr.dev.sends
+    for spec in specs:
+        cmd = cmds.mk_cmd(spec)
+        if not cmd.devicetype:
+            continue
+        fv = (len(cmd.frame), cmd.frame.as_integer)
+        idxs = [i for i, s_ in enumerate(sends) if s_["unit"] == u and (s_.get("bits"), s_.get("value")) == fv]
+        if not idxs:
+            continue
+        i = idxs[-1]
+        prev = sends[i - 1] if i > 0 else None
+        if rr.plan["driver"] == "hasseb" and cmd.sendtwice and len(idxs) >= 2 and idxs[-2] == i - 1:
+            prev = sends[i - 2] if i > 1 else None
+        ok = prev is not None and prev["unit"] == u and prev.get("gen") == sends[i].get("gen") and \
+            (prev.get("bits"), prev.get("value")) == (16, cmds.edt_frame(cmd.devicetype))
+        if not ok:
+            V("retried-command-without-device-type-prefix", "unit %s: %s reached the gateway (generation %s) preceded by %s, "
+              "not by EnableDeviceType(%d) of the same attempt" % (
+                  u, cmd, sends[i].get("gen"),
+                  None if prev is None else "%s:%x (unit %s, generation %s)" % (prev.get("bits"), prev.get("value", 0), prev["unit"], prev.get("gen")),
+                  cmd.devicetype), site=rr.plan["driver"])
 
 
 def _recovery_site(rr, ctx):
